@@ -404,6 +404,7 @@ func main() {
 	a := lib.ParseArgs()
 	w = lib.NewWriter(a.Out)
 	defer w.Close()
+	defer cleanupService()
 	if a.Replay != "" {
 		for _, l := range lib.ReplayLines(a.Replay) {
 			switch l[0] {
@@ -417,15 +418,19 @@ func main() {
 			case "sync.drift":
 				f := lib.Fields(l[2])
 				driftCase(lib.ParseI(f[0]), lib.ParseI(f[1]))
+			case "sync.config":
+				replayConfig(l[2])
 			}
 		}
 		return
 	}
 	r := lib.NewRng(a.Seed)
-	nScen, nDrift, maxRounds := 8000, 6000, 20
+	nScen, nDrift, maxRounds, nCfg := 8000, 6000, 20, 300
 	if a.Tier == "thorough" {
-		nScen, nDrift, maxRounds = 160000, 100000, 50
+		nScen, nDrift, maxRounds, nCfg = 160000, 100000, 50, 3000
 	}
 	generate(r, nScen, nDrift, maxRounds)
+	// the configuration path (TOML settings through the service's own functions), then Run on what they return
+	generateConfig(r, nCfg)
 	fmt.Fprintf(os.Stderr, "c01: %d cases\n", w.N())
 }
